@@ -525,6 +525,14 @@ func (r *run) exec() {
 	nontrivial := r.nprocs >= 2 && (len(want.ways)+len(want.rels) > 0)
 
 	f := &simFile{data: xmlDoc, fired: map[string]int{}}
+	// the reader is handed over wherever a previous user left it: extract
+	// must rewind it itself
+	switch t.Choose(4, "reader-start") {
+	case 1:
+		f.pos = len(xmlDoc)
+	case 2:
+		f.pos = t.Choose(len(xmlDoc)+1, "reader-start-at")
+	}
 	faulty := false
 	cancelAt := int64(0)
 	switch r.class {
